@@ -10,6 +10,7 @@ import (
 func init() {
 	register("C12", func(c *core.Ctx, tier string) {
 		abortedPostNotAnError(c, "C12.11")
+		bufferedCloseRechecksWritable(c, "C12.12")
 		baseTransportEffects(c, "C12.9")
 		pollingEffects(c, "C12.8")
 		constructorChain(c, "C12.7")
